@@ -323,6 +323,16 @@ impl Check for C08 {
                 v.push(SchedCase { capacity: 0, columns: 1, threads: vec![vec![a.clone()], vec![b.clone()]], mode: 0, choices, changes: vec![], item_kind: (mask % 4) as u8 });
             }
         }
+        // the push that draws the threshold index of a bucket (28 of the first 32) allocates the next bucket eagerly;
+        // hold it at each of the steps 40..130 of its thread (the pre-fill takes about 60) while another thread fills the rest of the bucket and crosses into
+        // the next one (C09-r5-1 published the eager allocation with a plain store over the other thread's bucket)
+        for s in 40..=130u16 {
+            for (k, other) in [vec![VOp::Extend { n: 5, lie: 0 }], vec![VOp::Push, VOp::Push, VOp::Push, VOp::Push, VOp::Push]].into_iter().enumerate() {
+                let mut choices = vec![1u8; 128];
+                choices[0] = 0;
+                v.push(SchedCase { capacity: 0, columns: 1, threads: vec![vec![VOp::Extend { n: 27, lie: 0 }, VOp::Push, VOp::Push], other], mode: 1, choices, changes: vec![s], item_kind: ((s as usize + k) % 4) as u8 });
+            }
+        }
         // lookups at the extremes of the index space
         // exhausting the index space: the count must never decrease, lookups must not panic
         for k in [0u8, 5, 31] {
